@@ -158,6 +158,17 @@ def run_case(ctx, g, rng):
         outs.add(type(o[1]).__name__)
         if o[0] == "ret":
             c = o[1]
+            if pi % 2 == 0:
+                # the caller keeps and edits the dictionaries / sets it was handed (bimap as "a plain prefix map for
+                # legacy systems"); what the converter shows afterwards must still be the bijection over its records
+                gen.touch_handed_out_views(c)
+                probe.evaluated("views-after-the-caller-edited-earlier-results")
+                from ..mon_state import structural_diffs
+                with probe.monitor_mode():
+                    diffs = structural_diffs(c)
+                if diffs:
+                    violation(["C04"], "views-after-the-caller-edited-earlier-results", "views-differ-from-records-after-the-caller-edited-what-it-was-handed",
+                              records=[spec.rec_dict(r) for r in spec.snapshot(c)], diffs=diffs)
             for r in recs[:3]:
                 call(c.expand_pair, r.prefix, "1")
                 call(c.compress, r.uri_prefix + "1")
